@@ -65,13 +65,20 @@ class Crash(Exception): pass            # harness-requested simulated process de
 
 # --------------------------------------------------------------------------- engine
 class Engine:
-    def __init__(s, path, max_steps=20000000, max_depth=400, known=None):
+    def __init__(s, path, max_steps=20000000, max_depth=400, known=None, hooks=()):
         s.m = ir2c.parse_module(open(path).read())
         s.L = Layout(s.m)
         s.decoded = {}
         s.stats = collections.Counter()
         s.violations = []
         s.max_steps = max_steps; s.max_depth = max_depth; s.hooks = {}
+        if 'const_hash' in hooks:
+            # container semantics do not depend on hash values: replace rapidhash by a constant so that symbolic keys do not make bucket indices symbolic
+            def const_hash(e, args):
+                n = e.concretize(args[1], 64)
+                if n: e.check(e.concretize(args[0], 64), n, 'hash key read')
+                return 0x9E3779B97F4A7C15
+            s.hooks['@_Z18rapidhash_internalPKvmmPKm'] = const_hash
         s.known = known or []          # known findings: list of dict(assert=regex, when={name: value})
         s.fn_steps = collections.Counter()
         s.work = []
@@ -124,7 +131,8 @@ class Engine:
     def check(s, addr, size, what):
         al = s.find_alloc(addr)
         if al is None or addr + size > al[0] + al[1] or not al[2]:
-            raise Violation('memory-safety: %s of %d bytes at %#x (%s)' % (what, size, addr, 'no object' if al is None else ('freed ' if not al[2] else 'out of bounds of ') + al[3]))
+            s.stats['last_bad_addr'] = addr
+            raise Violation('memory-safety: %s of %d bytes %s' % (what, size, 'through a wild pointer' if al is None else ('in freed ' if not al[2] else 'out of bounds of ') + al[3].split(' @')[0]))
     def explode(s, o):
         size, val = s.cells.pop(o)
         for i in range(size):
@@ -379,7 +387,13 @@ class Engine:
     # ---- arithmetic
     def binop(s, op, t, a, b):
         if t[0] in ('float', 'double'):
-            return {'fadd': a + b, 'fsub': a - b, 'fmul': a * b, 'fdiv': a / b if b else float('inf')}[op]
+            if op == 'fdiv':
+                import math
+                if b == 0:
+                    if a == 0 or a != a: return math.copysign(float('nan'), -1.0)     # x86 default NaN has the sign bit set
+                    return math.copysign(float('inf'), a) * math.copysign(1.0, b)
+                return a / b
+            return {'fadd': a + b, 'fsub': a - b, 'fmul': a * b}[op]
         n = t[1]; M = (1 << n) - 1
         if n == 1 and (is_sym(a) or is_sym(b)):
             A, B = to_bool(a), to_bool(b)
@@ -566,6 +580,10 @@ class Engine:
         s.depth += 1
         if s.depth > s.max_depth: raise Violation('unbounded recursion: call depth exceeds %d in %s' % (s.max_depth, name))
         try: return s.run_function(name, f, args)
+        except Violation as e:
+            if not getattr(e, 'where', None):
+                e.where = name; e.args = ('%s [in %s]' % (e.args[0], name[1:]),)
+            raise
         finally: s.depth -= 1
     def run_function(s, name, f, args):
         blocks, entry_alias = s.decode(name)
@@ -964,6 +982,16 @@ class Engine:
                     last = a + i
                 elif s.branch(s.icmp('eq', ('int', 8), x, 0)): return last
                 i += 1
+        if n in ('strpbrk', 'strcspn', 'strspn'):
+            a = s.concretize(args[0], 64); acc = [ord(c) for c in s.cstring(args[1])]; i = 0
+            while True:
+                x = s.load(a + i, 1)
+                if s.branch(s.icmp('eq', ('int', 8), x, 0)): return 0 if n == 'strpbrk' else i
+                hit = s.branch(z3.Or(*[x == c for c in acc])) if is_sym(x) else (x in acc)
+                if n == 'strspn':
+                    if not hit: return i
+                elif hit: return a + i if n == 'strpbrk' else i
+                i += 1
         if n == 'strstr':
             h = s.cstring(args[0]); nd = s.cstring(args[1]); k = h.find(nd); return 0 if k < 0 else args[0] + k
         if n == 'strdup': return s.put_cstring(s.cstring(args[0]), 'heap')
@@ -994,25 +1022,51 @@ class Engine:
         if n in ('signal', 'sigaction', 'sigemptyset', 'sigaddset', 'sigprocmask', 'fcntl', 'ioctl', 'chdir', 'pthread_sigmask'):
             return 0xFFFFFFFF if n == 'ioctl' else 0
         if n in ('strtol', 'strtoll', 'strtoul', 'strtoull', 'atoi', 'atol'):
-            txt = s.cstring(args[0]); base = s.concretize(args[2], 32) if len(args) > 2 else 10
+            # byte-wise, forking on the class of each symbolic byte (space / sign / digit / other); the value stays a term
+            addr = s.concretize(args[0], 64); base = s.concretize(args[2], 32) if len(args) > 2 else 10
+            def is_(b, pred_c, pred_s):
+                if is_sym(b): return s.branch(pred_s(b))
+                return pred_c(b)
             i = 0
-            while i < len(txt) and txt[i] in ' \t\n\r\v\f': i += 1
-            sign = 1
-            if txt[i:i + 1] in ('+', '-') and txt[i:i + 1]: sign = -1 if txt[i] == '-' else 1; i += 1
-            if base in (0, 16) and txt[i:i + 2].lower() == '0x': i += 2; base = 16
-            elif base == 0: base = 8 if txt[i:i + 1] == '0' else 10
-            digs = '0123456789abcdefghijklmnopqrstuvwxyz'[:base]
-            v = 0; j = i
-            while j < len(txt) and txt[j].lower() in digs: v = v * base + digs.index(txt[j].lower()); j += 1
-            if j == i: j = 0
-            if len(args) > 1 and n.startswith('strto') and args[1]: s.store(args[1], 8, args[0] + j)
-            v *= sign
+            while is_(s.load(addr + i, 1), lambda b: b in (32, 9, 10, 11, 12, 13), lambda b: z3.Or(b == 32, z3.And(z3.UGE(b, 9), z3.ULE(b, 13)))): i += 1
+            neg = False; b = s.load(addr + i, 1)
+            if is_(b, lambda b: b == 45, lambda b: b == 45): neg = True; i += 1
+            elif is_(b, lambda b: b == 43, lambda b: b == 43): i += 1
+            if base in (0, 16):
+                b0 = s.load(addr + i, 1)
+                if is_(b0, lambda b: b == 48, lambda b: b == 48):
+                    b1 = s.load(addr + i + 1, 1)
+                    if is_(b1, lambda b: b in (120, 88), lambda b: z3.Or(b == 120, b == 88)):
+                        b2 = s.load(addr + i + 2, 1)
+                        if is_(b2, lambda b: chr(b) in '0123456789abcdefABCDEF', lambda b: z3.Or(z3.And(z3.UGE(b, 48), z3.ULE(b, 57)), z3.And(z3.UGE(b | 32, 97), z3.ULE(b | 32, 102)))): i += 2; base = 16
+                    if base == 0: base = 8
+                elif base == 0: base = 10
+            val = 0; start = i; ndig = 0
+            while True:
+                b = s.load(addr + i, 1)
+                if base <= 10:
+                    ok = is_(b, lambda b: 48 <= b < 48 + base, lambda b: z3.And(z3.UGE(b, 48), z3.ULT(b, 48 + base)))
+                    dig = (z3.ZeroExt(56, b) - 48) if is_sym(b) else b - 48
+                else:
+                    ok = is_(b, lambda b: chr(b).lower() in '0123456789abcdefghijklmnopqrstuvwxyz'[:base], lambda b: z3.Or(z3.And(z3.UGE(b, 48), z3.ULE(b, 57)), z3.And(z3.UGE(b | 32, 97), z3.ULT(b | 32, 97 + base - 10))))
+                    if is_sym(b): b64 = z3.ZeroExt(56, b); dig = z3.If(z3.ULE(b64, 57), b64 - 48, (b64 | 32) - 87)
+                    else: dig = b - 48 if b <= 57 else (b | 32) - 87
+                if not ok: break
+                val = val * base + dig; i += 1; ndig += 1
+                if ndig > 18 and not is_sym(val) and n != 'atoi': pass
+            if ndig == 0: i = 0 if start == i and not neg else 0
+            if len(args) > 1 and n.startswith('strto') and args[1]: s.store(s.concretize(args[1], 64), 8, addr + i)
             bits = 32 if n == 'atoi' else 64
+            if is_sym(val):
+                if neg: val = -val
+                val = z3.simplify(val)
+                return z3.Extract(31, 0, val) if bits == 32 else val
+            if neg: val = -val
             if n in ('strtol', 'strtoll', 'atol'):
-                if v > (1 << 63) - 1: v = (1 << 63) - 1; s.set_errno(34)
-                if v < -(1 << 63): v = -(1 << 63); s.set_errno(34)
-            elif n in ('strtoul', 'strtoull') and abs(v) > (1 << 64) - 1: v = (1 << 64) - 1; s.set_errno(34)
-            return v & ((1 << bits) - 1)
+                if val > (1 << 63) - 1: val = (1 << 63) - 1; s.set_errno(34)
+                if val < -(1 << 63): val = -(1 << 63); s.set_errno(34)
+            elif n in ('strtoul', 'strtoull') and abs(val) > (1 << 64) - 1: val = (1 << 64) - 1; s.set_errno(34)
+            return val & ((1 << bits) - 1)
         if n in ('strtod', 'atof'):
             import re
             txt = s.cstring(args[0]); mm = re.match(r'\s*[-+]?(\d+\.?\d*([eE][-+]?\d+)?|\.\d+([eE][-+]?\d+)?)', txt)
@@ -1068,7 +1122,10 @@ class Engine:
             if cv in 'feEgG':
                 x = float(a) if not is_sym(a) else float(s.concretize(a, 64))
                 spec = '%' + flags + width + ('.%d' % prec if prec is not None else '') + cv
-                out += [ord(ch) for ch in spec % x]; continue
+                import math
+                if x != x: txt = ('-nan' if math.copysign(1.0, x) < 0 else 'nan'); txt = txt.rjust(int(width or 0)) if '-' not in flags else txt.ljust(int(width or 0))
+                else: txt = spec % x
+                out += [ord(ch) for ch in txt]; continue
             bits = 64 if ln in ('l', 'll', 'z', 'j', 't') or cv == 'p' else 32
             if ln == 'hh': bits = 8
             elif ln == 'h': bits = 16
@@ -1212,23 +1269,24 @@ class Engine:
         if n == 'verif_vfs_freeze': s.frozen = bool(s.concretize(args[0], 32)); return None
         if n == 'verif_vfs_events': return s.events
         if n in ('sscanf', '__isoc99_sscanf'):
-            txt = s.cstring(args[0], 64); f = s.cstring(args[1]); ti = 0; fi = 0; ai = 2; got = 0
+            # %d and literal characters only (what ninja uses); symbolic input bytes fork per character class
+            base_addr = s.concretize(args[0], 64); f = s.cstring(args[1]); ti = 0; fi = 0; ai = 2; got = 0
+            endp = s.alloc(8, 'sscanf-endptr')
+            def byte_is(off, pred_c, pred_s):
+                b = s.load(base_addr + off, 1)
+                return s.branch(pred_s(b)) if is_sym(b) else pred_c(b)
             while fi < len(f):
                 c = f[fi]
                 if c == '%' and f[fi + 1] == 'd':
-                    j = ti
-                    while j < len(txt) and txt[j].isspace(): j += 1
-                    st = j
-                    if j < len(txt) and txt[j] in '+-': j += 1
-                    k = j
-                    while k < len(txt) and txt[k].isdigit(): k += 1
-                    if k == j: return got
-                    s.store(args[ai], 4, int(txt[st:k]) & 0xFFFFFFFF); ai += 1; got += 1; ti = k; fi += 2
-                elif c.isspace():
-                    while ti < len(txt) and txt[ti].isspace(): ti += 1
+                    v = s.external('@strtol', [base_addr + ti, endp, 10])
+                    used = s.load(endp, 8) - (base_addr + ti)
+                    if used == 0: return got
+                    s.store(args[ai], 4, z3.Extract(31, 0, v) if is_sym(v) else v & 0xFFFFFFFF); ai += 1; got += 1; ti += used; fi += 2
+                elif c in ' \t\n':
+                    while byte_is(ti, lambda b: b in (32, 9, 10, 11, 12, 13), lambda b: z3.Or(b == 32, z3.And(z3.UGE(b, 9), z3.ULE(b, 13)))): ti += 1
                     fi += 1
                 else:
-                    if ti >= len(txt) or txt[ti] != c: return got
+                    if not byte_is(ti, lambda b: b == ord(c), lambda b: b == ord(c)): return got
                     ti += 1; fi += 1
             return got
         return NotImplemented
@@ -1251,7 +1309,7 @@ class Engine:
         except RecursionError: end = 'inconclusive'; detail = 'python recursion limit'
         res = dict(end=end, detail=detail, steps=s.icount, decisions=len(s.trace), new_decisions=len(s.trace) - len(prefix),
                    violations=s.violations, reached=sorted(set(s.reached)), asserts=dict(s.asserts_seen), nondets=len(s.nondets))
-        if end in ('complete', 'pathend') and not detail.startswith(('assume false', 'infeasible')):
+        if end in ('complete', 'pathend', 'inconclusive') and not detail.startswith(('assume false', 'infeasible', 'expected Fatal')):
             try:
                 mdl = s.cur_model()
                 res['vector'] = s.vector_of(mdl); res['obs'] = [sx(s.eval_in(mdl, o), 64) for o in s.obs]; res['notes'] = list(s.notes)
